@@ -5,7 +5,12 @@ replace / delete(projection=…)` and `aggregate([{$project: …}])` against the
 (`MongoModel.copyOnlyFields`, `findProject`, `findOneProject`, `aggProject`, `sliceOp`) and the
 oracle (`Spec.Proj.project`, `Spec.Proj.slice`), with the domain reasons computed by the Lean
 definitions the theorems of Props/C12.lean are about (`Spec.Proj.reasons`, `aggReasons`,
-`sliceReasons`).  Besides, the property is stated directly on the Python outputs: every result is
+`sliceReasons`).  Besides, the property is stated directly on the Python outputs: wherever the rule
+speaks (plain inclusion / exclusion specifications) every result of find, find_one_and_* and
+$project IS the document an independent reference projection written from the property text
+prescribes (`ref_project`: _id unless excluded plus the named paths and nothing else / everything
+but the named paths; `_id` special at the top level only) - a difference is reported with the
+paths that should not be there / are lacking; every result is
 ⊑ the stored document, the number and order of results equal the unprojected query, `$slice`
 / `$elemMatch` fields hold the stated part, and the caller's projection object is unchanged after
 every call, successful or raising.  Whenever a datetime is stored (and for a sample of the other
@@ -37,7 +42,8 @@ import gen_proj
 import wire
 
 RULE = ('case = 1-3 stored documents (variants of one another: nested sub-documents, arrays of '
-        'sub-documents, mixed arrays, missing paths), one filter, one projection (dict / list '
+        'sub-documents, mixed arrays, missing paths; sub-documents use the top-level field names '
+        'and, one in four, carry an _id of their own), one filter, one projection (dict / list '
         'form, _id toggling, dotted paths, $slice, $elemMatch, malformed stream; one case in eight '
         'is "dated": arrays of sub-documents / scalars carrying datetimes, $elemMatch conditions '
         'on those dates by equality, range, $in/$nin/$ne, $slice next to date fields, and the same '
@@ -62,6 +68,10 @@ ASSUMPTIONS = [
     'find_one_and_* picks its target on the full document (fix: commit in /repo) and returns the '
     'projection of that document, empty or not',
     'sort / skip / limit are not combined with projection here (C11)',
+    'the python reference projection (ref_project) speaks exactly where the Lean oracle does '
+    '(Spec.Proj.project inside Spec.Proj.reasons = []) and says the same: checked on every '
+    'find-path item of every run, a difference is an internal error, not a verdict; it compares '
+    'documents whatever the order of their keys (the property does not speak of key order)',
     'tz_aware=True clients are outside the model (the driver is not consulted): their answers are '
     'judged against the naive client\'s answer with UTC attached to every datetime and against '
     'find on the same client',
@@ -136,6 +146,147 @@ def single_op(p, doc):
         return None
     (name, operand), = op.items()
     return f, name, operand, doc[f]
+
+
+# ---------------------------------------------------------------------------------------------
+# the rule of the property text, in Python, independent of the library and of the Lean side:
+# "an inclusion returns _id (unless excluded) plus the named paths - descending through
+# sub-documents and through each sub-document element of arrays - and nothing else; an exclusion
+# removes exactly the named paths and keeps everything else".  `_id` is special at the TOP level
+# only; below it the name is a field like any other.
+
+def is_flag(v):
+    return type(v) is bool or (type(v) is int and v in (0, 1))
+
+
+def ref_norm(p):
+    """None: the whole document; (include, paths, keep_id): a plain specification in normal
+    form; NOTHING: the rule does not speak (operator fields, values other than 0/1/true/false,
+    mixed modes, colliding or repeated paths, empty / `$` components, `_id.x`)"""
+    if p is None or (isinstance(p, (dict, list)) and not p):
+        return None
+    if isinstance(p, list):
+        if not all(isinstance(x, str) for x in p) or len(set(p)) != len(p):
+            return NOTHING
+        p = {x: 1 for x in p}
+    if not isinstance(p, dict) or not all(isinstance(k, str) for k in p):
+        return NOTHING
+    if not all(is_flag(v) for v in p.values()):
+        return NOTHING
+    keep_id = bool(p.get('_id', 1))
+    plain = [(tuple(k.split('.')), bool(v)) for k, v in p.items() if k != '_id']
+    paths = [q for q, _ in plain]
+    if not plain:
+        return keep_id, [], keep_id
+    if len({v for _, v in plain}) != 1:
+        return NOTHING
+    for q in paths:
+        if q[0] == '_id' or any(x == '' or x.startswith('$') for x in q):
+            return NOTHING
+    for i, q in enumerate(paths):
+        for j, t in enumerate(paths):
+            if i != j and t[:len(q)] == q:
+                return NOTHING
+    return plain[0][1], paths, keep_id
+
+
+def tails(k, paths):
+    return [q[1:] for q in paths if q and q[0] == k]
+
+
+def ref_incl(v, paths):
+    """what an inclusion of `paths` shows of v (NOTHING: a scalar has nothing to show)"""
+    if isinstance(v, dict):
+        out = {}
+        for k, x in v.items():
+            ts = tails(k, paths)
+            if not ts:
+                continue
+            if () in ts:
+                out[k] = x
+            else:
+                y = ref_incl(x, ts)
+                if y is not NOTHING:
+                    out[k] = y
+        return out
+    if isinstance(v, list):
+        return [y for y in (ref_incl(x, paths) for x in v) if y is not NOTHING]
+    return NOTHING
+
+
+def ref_excl(v, paths):
+    if isinstance(v, dict):
+        out = {}
+        for k, x in v.items():
+            ts = tails(k, paths)
+            if not ts:
+                out[k] = x
+            elif () not in ts:
+                out[k] = ref_excl(x, ts)
+        return out
+    if isinstance(v, list):
+        return [ref_excl(x, paths) for x in v]
+    return v
+
+
+def ref_project(p, d):
+    """the document the rule prescribes for projection p of document d (NOTHING: silent)"""
+    n = ref_norm(p)
+    if n is NOTHING or not isinstance(d, dict):
+        return NOTHING
+    if n is None:
+        return d
+    include, paths, keep_id = n
+    if include:
+        return ref_incl(d, ([('_id',)] if keep_id else []) + paths)
+    return ref_excl(d, ([] if keep_id else [('_id',)]) + paths)
+
+
+def same_value(a, b):
+    """equal values of equal types all the way down; the order of the keys of a document does
+    not count (the property does not speak of it)"""
+    if isinstance(a, dict):
+        return (isinstance(b, dict) and set(a) == set(b) and
+                all(same_value(a[k], b[k]) for k in a))
+    if isinstance(a, (list, tuple)):
+        return (isinstance(b, (list, tuple)) and len(a) == len(b) and
+                all(same_value(x, y) for x, y in zip(a, b)))
+    if type(a) is not type(b):
+        return False
+    return a == b or (a != a and b != b)
+
+
+def leaves(v, prefix=''):
+    """{dotted path (array positions included): leaf} of a value"""
+    if isinstance(v, dict) and v:
+        out = {}
+        for k, x in v.items():
+            out.update(leaves(x, prefix + '.' + k if prefix else k))
+        return out
+    if isinstance(v, (list, tuple)) and v:
+        out = {}
+        for i, x in enumerate(v):
+            out.update(leaves(x, prefix + '.' + str(i) if prefix else str(i)))
+        return out
+    return {prefix: v}
+
+
+def leaf_diff(got, want):
+    """(paths of got the rule does not put there, paths of want that got lacks)"""
+    g, x = leaves(got), leaves(want)
+
+    def differ(a, b):
+        # a container that is empty on one side and filled on the other is there on both: the
+        # difference is what fills it
+        out = []
+        for k in a:
+            if k in b and same_value(a[k], b[k]):
+                continue
+            if a[k] in ({}, []) and any(q.startswith(k + '.') for q in b):
+                continue
+            out.append(k)
+        return sorted(out)
+    return differ(g, x), differ(x, g)
 
 
 # ---------------------------------------------------------------------------------------------
@@ -451,6 +602,7 @@ class Judge(object):
         self.entry = collections.Counter()
         self.direct = collections.Counter()
         self.internal = []
+        self.refdiff = []
         self.evaluations = 0
 
     # -- verdict helpers ---------------------------------------------------------------------
@@ -526,6 +678,8 @@ class Judge(object):
                        'mongomock Collection._copy_only_fields ~ MongoModel.copyOnlyFields',
                        doc_index=i)
             self.direct_doc(c, i, d, c['per'][i], out)
+            self.direct_rule(c, 'find', p, d, c['per'][i],
+                             oracle=(spec, reasons), doc_index=i)
         self.direct_query(c)
         self.direct_args(c)
         self.direct_tz(c)
@@ -547,6 +701,7 @@ class Judge(object):
         py = w(c['famres'], o)
         self.judge(c, 'find_one_and_' + c['fam'], py, impl, py in (spec, spec2), silent, reasons,
                    'mongomock Collection.find_one_and_* (projection=) ~ MongoModel.copyOnlyFields')
+        self.direct_rule(c, 'find_one_and_' + c['fam'], p, c['famsrc'], c['famres'])
         if not is_err(c['famres']) and c['famres'] is not None:
             if not sub(c['famres'], c['famsrc']):
                 ctx.violation(render(c, kind='find_one_and_%s returned a document that is not '
@@ -558,6 +713,10 @@ class Judge(object):
         py = w(c['agg'], o)
         self.judge(c, 'aggregate', py, impl, py == spec, spec == '?', reasons,
                    'mongomock aggregate $project ~ MongoModel.aggProject')
+        if (not is_err(c['agg']) and isinstance(c['aggproj'], dict) and c['aggproj'] and
+                len(c['agg']) == len(stored)):
+            for i, (d, r) in enumerate(zip(stored, c['agg'])):
+                self.direct_rule(c, 'aggregate', c['aggproj'], d, r, doc_index=i)
         if not is_err(c['agg']) and not impl.startswith('!?'):
             self.direct['agg-sub'] += 1
             if len(c['agg']) != len(stored) or not all(sub(r, d) for r, d in
@@ -643,6 +802,43 @@ class Judge(object):
                                      'element', doc_index=i, field=f,
                                      python=wire.pretty(res.get(f, '<absent>'))),
                               rank=20 + len(repr(p)))
+
+    def direct_rule(self, c, entry, p, d, res, oracle=None, **kw):
+        """the clause itself on python's own output: the result is the document the rule
+        prescribes - _id (unless excluded) plus the named paths and nothing else / everything but
+        the named paths - wherever the rule speaks (`ref_project`, python only)"""
+        want = ref_project(p, d)
+        if oracle is not None:
+            # harness self-check: the python reference and the Lean oracle (`Spec.Proj.project`
+            # inside `Spec.Proj.reasons` = []) speak on the same inputs and say the same
+            spec, reasons = oracle
+            speaks = not reasons and spec != '?'
+            if speaks != (want is not NOTHING) or (speaks and w(want, c['oids']) != spec):
+                self.refdiff.append(render(
+                    c, entry=entry, lean_oracle=spec, lean_reasons=reasons,
+                    python_reference='silent' if want is NOTHING else wire.pretty(want), **kw))
+        if want is NOTHING or is_err(res) or res is None:
+            return
+        self.direct['rule:' + ('find_one_and_*' if '_and_' in entry else entry)] += 1
+        if same_value(res, want):
+            return
+        extra, missing = leaf_diff(res, want)
+        n = ref_norm(p)
+        mode = 'projection' if n is None else 'inclusion' if n[0] else 'exclusion'
+        if extra and not missing:
+            kind = ('%s returned something besides %s' % (
+                mode, '_id and the named paths' if mode == 'inclusion' else
+                'what is left once the named paths are removed'))
+        elif missing and not extra:
+            kind = '%s left out %s' % (mode, 'a named path' if mode == 'inclusion' else
+                                       'something that is not a named path')
+        else:
+            kind = '%s did not return the part of the document it names' % mode
+        self.ctx.violation(render(
+            c, kind='%s (%s)' % (kind, entry), entry=entry,
+            document=wire.pretty(d), python=wire.pretty(res), expected=wire.pretty(want),
+            should_not_be_there=extra, should_be_there=missing, **kw),
+            rank=5 + len(repr(p)) + len(repr(d)))
 
     def direct_tz(self, c):
         """a tz_aware client gets, on every read entry point, the projection of the STORED
@@ -850,6 +1046,9 @@ def run(ctx, proof, driver_ok):
     if judge.internal:
         raise RuntimeError('model and oracle differ inside D (contradicts the theorem): %r'
                            % judge.internal[:2])
+    if judge.refdiff:
+        raise RuntimeError('the python reference projection and the Lean oracle differ (harness '
+                           'defect): %r' % judge.refdiff[:2])
     return {
         'evaluations': judge.evaluations,
         'distinct_nontrivial': len(seen),
@@ -885,6 +1084,9 @@ def replay(ctx, path):
                       'violations': len(ctx.violations)}, default=repr))
     if judge.internal:
         print('model and oracle differ inside D')
+        return 2
+    if judge.refdiff:
+        print('the python reference projection and the Lean oracle differ (harness defect)')
         return 2
     return common.finish(ctx)
 
